@@ -833,7 +833,7 @@ func (r *rewriter) rangeStmt(x *ast.RangeStmt) ast.Stmt {
 		pre = append(pre, &ast.AssignStmt{Lhs: []ast.Expr{lhs, okId}, Tok: tok, Rhs: []ast.Expr{recv}})
 		pre = append(pre, &ast.IfStmt{Cond: &ast.UnaryExpr{Op: token.NOT, X: ast.NewIdent(okId.Name)}, Body: &ast.BlockStmt{List: []ast.Stmt{&ast.BranchStmt{Tok: token.BREAK}}}})
 		r.block(x.Body)
-		return &ast.ForStmt{Body: &ast.BlockStmt{List: append(pre, x.Body.List...)}}
+		return &ast.ForStmt{Body: &ast.BlockStmt{List: append(pre, x.Body)}}
 	}
 	_, isMap := t.Underlying().(*types.Map)
 	if !isMap {
@@ -886,7 +886,8 @@ func (r *rewriter) rangeStmt(x *ast.RangeStmt) ast.Stmt {
 		keyId = kv
 	}
 	r.block(x.Body)
-	body := &ast.BlockStmt{List: append(pre, x.Body.List...)}
+	// the range variables live in a scope OUTSIDE the body block (the body may shadow them: `v := v`)
+	body := &ast.BlockStmt{List: append(pre, x.Body)}
 	out := &ast.RangeStmt{Key: ast.NewIdent("_"), Value: keyId, Tok: token.DEFINE, X: call, Body: body}
 	if len(lhs) == 0 {
 		out.Key, out.Value, out.Tok = nil, nil, token.ILLEGAL
